@@ -476,6 +476,264 @@ let suite_log_conc t v =
   if List.sort compare expected <> List.sort compare found then oracle v "interleaved_or_lost_line" false;
   v.cls <- "D"; v.nontrivial <- true
 
+
+(* ============================ suite S : receiver / stage ===================== *)
+let md5_name (body : M.z list) : M.z list =
+  let b = Bytes.create (List.length body) in
+  List.iteri (fun i z -> Bytes.set b i (Char.chr ((int_of_z z) land 255))) body;
+  digits_of_string (Digest.to_hex (Digest.bytes b))
+
+let string_of_name (n : M.z list) = String.concat "" (List.map (fun z -> String.make 1 (Char.chr ((int_of_z z) land 255))) n)
+
+type snap = {
+  sfiles : (string * string * int * string) list;                 (* name ext size md5 *)
+  scmps : (string * string * string * M.z * string * (M.z * M.z) list) list;   (* name renamed prev size hash parts *)
+  sfinals : (string * int * string) list;
+  slog : (string * string * string * string) list;
+}
+
+let parse_cmp t =
+  let n = str_of_hex (next t) in let r = str_of_hex (next t) in let pv = str_of_hex (next t) in
+  let sz = nz t in let h = str_of_hex (next t) in let np = ni t in
+  let ps = times np (fun () -> let b = nz t in let e = nz t in (b, e)) in
+  (n, r, pv, sz, h, ps)
+
+let parse_snap t =
+  let nf = ni t in
+  let sfiles = times nf (fun () -> let n = str_of_hex (next t) in let e = next t in let sz = ni t in let m = next t in (n, e, sz, m)) in
+  let nc = ni t in
+  let scmps = times nc (fun () -> parse_cmp t) in
+  let nfin = ni t in
+  let sfinals = times nfin (fun () -> let n = str_of_hex (next t) in let sz = ni t in let m = next t in (n, sz, m)) in
+  let nl = ni t in
+  let slog = times nl (fun () -> let n = str_of_hex (next t) in let r = str_of_hex (next t) in let h = str_of_hex (next t) in let sz = next t in (n, r, h, sz)) in
+  { sfiles; scmps; sfinals; slog }
+
+let model_snap (st : M.stage) : snap =
+  let body_entry ext (n, d) = (string_of_name n, ext, List.length d, string_of_name (md5_name d)) in
+  let sfiles =
+    List.map (fun (n, sf) -> body_entry "part" (n, sf.M.sf_data)) st.M.parts
+    @ List.map (body_entry "full") st.M.fulls @ List.map (body_entry "wait") st.M.waits in
+  let scmps = List.map (fun (n, c) ->
+    (string_of_name n, string_of_name c.M.c_renamed, string_of_name c.M.c_prev, c.M.c_size, string_of_name c.M.c_hash, c.M.c_parts)) st.M.cmps in
+  let sfinals = List.map (fun (n, d) -> (string_of_name n, List.length d, string_of_name (md5_name d))) st.M.finals in
+  let slog = List.map (fun r -> (string_of_name r.M.l_name, string_of_name r.M.l_renamed, string_of_name r.M.l_hash, string_of_z r.M.l_size)) st.M.rlog in
+  { sfiles; scmps; sfinals; slog }
+
+let cmp_equal (n1, r1, p1, s1, h1, ps1) (n2, r2, p2, s2, h2, ps2) =
+  n1 = n2 && r1 = r2 && p1 = p2 && M.Z.eqb s1 s2 && h1 = h2 && M.same_set_b ps1 ps2
+  && M.complete ps1 s1 = M.complete ps2 s2
+
+let cmps_equal a b =
+  let key (n, _, _, _, _, _) = n in
+  let a = List.sort (fun x y -> compare (key x) (key y)) a and b = List.sort (fun x y -> compare (key x) (key y)) b in
+  List.length a = List.length b && List.for_all2 cmp_equal a b
+
+let suite_stage t v =
+  let now = nz t in
+  let nops = ni t in
+  let name_tok () = bytes_of_hex (next t) in
+  let ops = times nops (fun () ->
+    match next t with
+    | "PR" -> let n = name_tok () in let sz = nz t in `PR (n, sz)
+    | "RC" ->
+        let n = name_tok () in let r = name_tok () in let pv = name_tok () in let sz = nz t in
+        let h = name_tok () in let b = nz t in let e = nz t in let tm = nz t in
+        let d = bytes_of_hex (next t) in let rerr = nb t in
+        `RC ({ M.p_name = n; p_renamed = r; p_prev = pv; p_size = sz; p_hash = h; p_beg = b; p_end = e; p_time = tm }, d, rerr)
+    | "ST" -> `ST | "SC" -> `SC | "CL" -> `CL | "RS" -> `RS | "TF" -> `TF
+    | "RQ" ->
+        let k = ni t in
+        `RQ (times k (fun () ->
+          let n = name_tok () in let r = name_tok () in let pv = name_tok () in let h = name_tok () in
+          let b = nz t in let e = nz t in let tm = nz t in
+          { M.p_name = n; p_renamed = r; p_prev = pv; p_size = M.Z0; p_hash = h; p_beg = b; p_end = e; p_time = tm }))
+    | "SQ" -> let n = name_tok () in let off = ni t in `SQ (n, off)
+    | "AG" -> `AG (name_tok ())
+    | "TM" -> let n = name_tok () in let e = nz t in let d = bytes_of_hex (next t) in `TM (n, e, d)
+    | s -> raise (Malformed ("stage op " ^ s))) in
+  expect t "=";
+  let st = ref M.init_stage in
+  let stop = ref false in
+  let idx = ref 0 in
+  (* ghost bookkeeping for the oracles (from the ops and the implementation's own answers) *)
+  let announced : (string, string) Hashtbl.t = Hashtbl.create 8 in          (* name -> announced hashes *)
+  let ann_prev : (string * string, string) Hashtbl.t = Hashtbl.create 8 in  (* (name,hash) -> prev *)
+  let written : (string * string, (M.z * M.z)) Hashtbl.t = Hashtbl.create 8 in (* (name,hash) -> acknowledged written ranges *)
+  let short_read = ref false and reannounce = ref false in
+  let cleared : (string, unit) Hashtbl.t = Hashtbl.create 4 in
+  let cleaned_once = ref false in
+  (* is the file on a cycle of announced predecessor references (any version)? then the
+     periodic cleaner may legitimately give up the order for it *)
+  let in_cycle n =
+    let prevs x = Hashtbl.fold (fun (nm, _) p acc -> if nm = x && p <> "" then p :: acc else acc) ann_prev [] in
+    let rec reach frontier seen steps =
+      if steps = 0 then false
+      else
+        let next = List.concat (List.map prevs frontier) in
+        if List.mem n next then true
+        else
+          let fresh = List.filter (fun x -> not (List.mem x seen)) next in
+          if fresh = [] then false else reach fresh (seen @ fresh) (steps - 1) in
+    reach [n] [n] 50 in
+  let last_snap = ref None in
+  let restarted_since_log = ref false in
+  ignore restarted_since_log;
+  let debug = (try Sys.getenv "MODELRUN_DEBUG" <> "" with Not_found -> false) in
+  let show (sn : snap) =
+    String.concat " " (List.map (fun (n, e, sz, m) -> Printf.sprintf "%s.%s:%d:%s" n e sz (String.sub m 0 6)) (List.sort compare sn.sfiles))
+    ^ " | cmps: " ^ String.concat " " (List.map (fun (n, r, p, sz, h, ps) -> Printf.sprintf "%s(r=%s,p=%s,sz=%s,h=%s,[%s])" n r p (string_of_z sz) (if String.length h > 6 then String.sub h 0 6 else h)
+         (String.concat ";" (List.map (fun (b, e) -> string_of_z b ^ "-" ^ string_of_z e) ps))) sn.scmps)
+    ^ " | finals: " ^ String.concat " " (List.map (fun (n, sz, m) -> Printf.sprintf "%s:%d:%s" n sz (String.sub m 0 6)) (List.sort compare sn.sfinals))
+    ^ " | log: " ^ String.concat " " (List.map (fun (n, r, h, sz) -> Printf.sprintf "%s/%s/%s/%s" n r (if String.length h > 6 then String.sub h 0 6 else h) sz) sn.slog) in
+  let check_snapshot k (isn : snap) (msn : snap) =
+    let ks = string_of_int k in
+    if debug then Printf.eprintf "op %d snapshot\n  impl : %s\n  model: %s\n" k (show isn) (show msn);
+    if List.sort compare isn.sfiles <> List.sort compare msn.sfiles then diff v ("stage-files@" ^ ks);
+    if not (cmps_equal isn.scmps msn.scmps) then diff v ("companions@" ^ ks);
+    if List.sort compare isn.sfinals <> List.sort compare msn.sfinals then diff v ("finals@" ^ ks);
+    if List.sort compare isn.slog <> List.sort compare msn.slog then diff v ("log@" ^ ks);
+    (* C01: every delivered file is byte-identical to an announced version and its hash is the logged one *)
+    List.iter (fun (tn, _, m) ->
+      let logged = List.exists (fun (n, r, h, _) -> (if r = "" then n else r) = tn && h = m) isn.slog in
+      let announced_ok = List.exists (fun (n, r, h, _) -> (if r = "" then n else r) = tn && List.mem h (Hashtbl.find_all announced n) && h = m) isn.slog in
+      if not (logged && announced_ok) then
+        oracle v "delivered_content_not_validated" (List.mem (tn, 0, m) (List.map (fun (a, _, c) -> (a, 0, c)) msn.sfinals) && !reannounce)) isn.sfinals;
+    (* C05: one log record per validated version *)
+    let rec dups = function [] -> false | (n, _, h, _) :: r -> List.exists (fun (n', _, h', _) -> n = n' && h = h') r || dups r in
+    if dups isn.slog then oracle v "logged_twice" (dups msn.slog);
+    (* C04: never logged before its predecessor *)
+    let rec order seen = function
+      | [] -> ()
+      | (n, _, h, _) :: rest ->
+          (match Hashtbl.find_opt ann_prev (n, h) with
+           | Some p when p <> "" && p <> n && not (Hashtbl.mem cleared n) && not (!cleaned_once && in_cycle n) ->
+               if not (List.mem p seen) then
+                 oracle v "delivered_before_predecessor"
+                   (let rec morder seen = function
+                      | [] -> false
+                      | (n', _, h', _) :: r' -> (n' = n && h' = h && not (List.mem p seen)) || morder (n' :: seen) r' in
+                    morder [] msn.slog)
+           | _ -> ());
+          order (n :: seen) rest in
+    order [] isn.slog;
+    (* C09 at stage level: a companion claims only bytes acknowledged and written for that version *)
+    List.iter (fun (n, _, _, _, h, ps) ->
+      let w = Hashtbl.find_all written (n, h) in
+      if not (M.subset_b ps w) then oracle v "companion_claims_unwritten" false) isn.scmps;
+    last_snap := Some isn in
+  List.iter (fun op ->
+    if not !stop then begin
+      let k = !idx in incr idx;
+      let ks = string_of_int k in
+      (match op with
+       | `PR (n, sz) -> ignore (next t); st := M.prepare !st n sz
+       | `RC (p, d, rerr) ->
+           let iok = nb t in
+           let ns = string_of_name p.M.p_name and hs = string_of_name p.M.p_hash in
+           (match Hashtbl.find_all announced ns with
+            | [] -> ()
+            | hl -> if not (List.mem hs hl) then begin
+                      (* another version announced while an earlier one may still be staged *)
+                      if M.ahas p.M.p_name !st.M.parts || M.ahas p.M.p_name !st.M.fulls || M.ahas p.M.p_name !st.M.waits
+                      then reannounce := true end);
+           if not (List.mem hs (Hashtbl.find_all announced ns)) then Hashtbl.add announced ns hs;
+           Hashtbl.replace ann_prev (ns, hs) (string_of_name p.M.p_prev);
+           let (st', mok) = M.receive !st p d rerr in
+           if mok <> iok then diff v ("receive@" ^ ks);
+           if iok then begin
+             let len = z_of_int (List.length d) in
+             Hashtbl.add written (ns, hs) (p.M.p_beg, M.Z.add p.M.p_beg len);
+             if M.Z.ltb len (M.Z.sub p.M.p_end p.M.p_beg) then short_read := true
+           end;
+           st := M.settle md5_name M.sETTLE_FUEL st' now
+       | `ST ->
+           let isn = parse_snap t in
+           st := M.settle md5_name M.sETTLE_FUEL !st now;
+           check_snapshot k isn (model_snap !st)
+       | `TF ->
+           let isn = parse_snap t in
+           st := M.settle md5_name M.sETTLE_FUEL (M.timers_fire (M.settle md5_name M.sETTLE_FUEL !st now)) now;
+           check_snapshot k isn (model_snap !st)
+       | `RS ->
+           let isn = parse_snap t in
+           st := M.settle md5_name M.sETTLE_FUEL (M.restart md5_name (M.settle md5_name M.sETTLE_FUEL !st now) now) now;
+           check_snapshot k isn (model_snap !st)
+       | `CL ->
+           let isn = parse_snap t in
+           let before = M.settle md5_name M.sETTLE_FUEL !st now in
+           let pre = (match !last_snap with Some s -> Some s | None -> None) in
+           cleaned_once := true;
+           let cleaned = M.clean before in
+           (* which waiters had their predecessor cleared by the cleaner (cycle) *)
+           List.iteri (fun o f ->
+             let f' = List.nth cleaned.M.heap o in
+             if f.M.f_prev <> [] && f'.M.f_prev = [] then Hashtbl.replace cleared (string_of_name f.M.f_name) ()) before.M.heap;
+           st := M.settle md5_name M.sETTLE_FUEL cleaned now;
+           let msn = model_snap !st in
+           (* C20: cleaning removes only partials/companions of versions already logged as received *)
+           let mpre = model_snap before in
+           ignore pre;
+           List.iter (fun (n, ext, _, _) ->
+             if not (List.exists (fun (n', e', _, _) -> n' = n && e' = ext) isn.sfiles) then begin
+               (* disappeared during cleaning *)
+               if ext <> "part" then begin
+                 (* .full / .wait may only leave by being validated / delivered *)
+                 let moved = (ext = "full" && List.exists (fun (n', e', _, _) -> n' = n && e' = "wait") isn.sfiles)
+                             || List.exists (fun (ln, _, _, _) -> ln = n) isn.slog in
+                 if not moved then oracle v "clean_removed_validated_data" false
+               end else begin
+                 let h = (match List.find_opt (fun (cn, _, _, _, _, _) -> cn = n) mpre.scmps with
+                          | Some (_, _, _, _, h, _) -> h | None -> "") in
+                 let ok = List.exists (fun (ln, _, lh, _) -> ln = n && (h = "" || lh = h)) isn.slog
+                          (* a late duplicate of a version that is validated and held counts as received *)
+                          || List.exists (fun (wn, we, _, wm) -> wn = n && we = "wait" && (h = "" || wm = h)) isn.sfiles in
+                 if not ok then
+                   oracle v "clean_removed_undelivered_partial"
+                     (not (List.exists (fun (n', e', _, _) -> n' = n && e' = "part") msn.sfiles))
+               end
+             end) mpre.sfiles;
+           List.iter (fun (n, _, _, _, h, _) ->
+             if not (List.exists (fun (n', _, _, _, _, _) -> n' = n) isn.scmps) then
+               if not (List.exists (fun (ln, _, lh, _) -> ln = n && lh = h) isn.slog) then
+                 oracle v "clean_removed_undelivered_companion"
+                   (not (List.exists (fun (n', _, _, _, _, _) -> n' = n) msn.scmps))) mpre.scmps;
+           check_snapshot k isn msn
+       | `RQ ps ->
+           let ia = nz t in
+           let (st', ma) = M.received_q !st now ps in
+           if debug then Printf.eprintf "op %d received impl=%s model=%s\n" k (string_of_z ia) (string_of_z ma);
+           if not (M.Z.eqb ia ma) then diff v ("received@" ^ ks);
+           (* C09: parts counted as received are on record or the file was delivered/held *)
+           st := st'
+       | `SQ (n, off) ->
+           let ia = ni t in
+           let sent = if off = 0 then M.Z0 else M.Z.add now (z_of_int off) in
+           let (st', ma) = M.status_q !st now n sent in
+           if debug then Printf.eprintf "op %d status impl=%d model=%d\n" k ia (int_of_z ma);
+           if ia <> int_of_z ma then diff v ("status@" ^ ks);
+           (* C02 (receiver half): a positive answer needs a durably held validated copy *)
+           if ia = 2 || ia = 3 then
+             if not (M.ahas n st'.M.waits || M.log_has st' n []) then oracle v "positive_status_without_copy" (int_of_z ma = ia);
+           st := st'
+       | `SC ->
+           let nc = ni t in
+           if nc < 0 then diff v ("scan-error@" ^ ks)
+           else begin
+             let ic = times nc (fun () -> parse_cmp t) in
+             let (st', mc) = M.scan_q !st in
+             let mc = List.map (fun (n, c) ->
+               (string_of_name n, string_of_name c.M.c_renamed, string_of_name c.M.c_prev, c.M.c_size, string_of_name c.M.c_hash, c.M.c_parts)) mc in
+             if not (cmps_equal ic mc) then diff v ("scan@" ^ ks);
+             st := st'
+           end
+       | `AG n -> ignore (next t); st := fst (M.sstep md5_name !st (M.OAge n))
+       | `TM (n, e, d) -> ignore (next t); st := fst (M.sstep md5_name !st (M.OTamper (n, e, d))));
+      if v.diffs <> [] then stop := true
+    end) ops;
+  v.cls <- (if !reannounce then "F" else "D");
+  v.nontrivial <- (match !last_snap with Some s -> s.sfinals <> [] || s.sfiles <> [] | None -> false)
+
 (* ============================ dispatch ====================================== *)
 let run_line line =
   let t = mk line in
@@ -486,6 +744,7 @@ let run_line line =
       | "K" -> suite_chunk t v
       | "Q" -> suite_queue t v
       | "L" -> suite_log t v
+      | "S" -> suite_stage t v
       | "LC" -> suite_log_conc t v
       | s -> raise (Malformed ("unknown suite " ^ s)))
    with
